@@ -22,6 +22,9 @@ func (c *Ctx) N(quick, thorough int) int {
 	if c.Thor {
 		return thorough
 	}
+	if len(changedFuncs) > 0 { // change-directed: the source differs from the tree the model was transcribed from
+		return quick * 3
+	}
 	return quick
 }
 
@@ -36,6 +39,7 @@ func main() {
 	replay := flag.String("replay", "", "replay file (re-run the recorded case only)")
 	corpus := flag.String("corpus", "", "corpus directory")
 	flag.Parse()
+	loadDict()
 	run, ok := runners[*prop]
 	if !ok {
 		ids := []string{}
@@ -52,6 +56,14 @@ func main() {
 		os.Exit(2)
 	}
 	ctx := &Ctx{M: m, R: NewReport(*prop, *tier, *seed), Rng: NewRng(*seed), Tier: *tier, Thor: *tier == "thorough", Replay: *replay, Corpus: *corpus}
+	if len(changedFuncs) > 0 {
+		cf := changedFuncs
+		if len(cf) > 12 {
+			cf = cf[:12]
+		}
+		ctx.R.Notes = append(ctx.R.Notes, fmt.Sprintf("change-directed search: %d function(s) differ from the tree the model was transcribed from %v; dictionary: %d strings %v, %d sizes %v",
+			len(changedFuncs), cf, len(hotStrings), hotStrings, len(hotInts), hotInts))
+	}
 	err = run(ctx)
 	ctx.R.ModelReqs = m.Requests
 	ctx.R.OracleCalls = m.OracleCalls
